@@ -50,6 +50,43 @@ fn faults_test(c: &SimCase, obs: &mut Obs) -> CheckResult {
     Ok(())
 }
 
+/// Long sessions: the sequence numbers pass the wrap (from the greatest accepted initial
+/// sequence, or after 512 numbers for Dublin/IPv6) in the middle of the run, so that whatever
+/// the tracer re-initialises at the wrap shows in the rounds after it.
+fn wrap_strat() -> BoxedStrategy<SimCase> {
+    use proptest::strategy::Strategy;
+    sim_case(&GenOpts {
+        supported_only: true,
+        sending_only: true,
+        max_hops: 40,
+        long_path_pct: 0,
+        rounds: (1, 8),
+        ..GenOpts::default()
+    })
+    .prop_map(|mut c| {
+        let longest = c.world.paths.iter().map(|p| p.hops.len() + 1).max().unwrap_or(1);
+        let span = usize::from(c.cfg.max_ttl.saturating_sub(c.cfg.first_ttl)) + 1;
+        let per_round = longest.min(span).max(1);
+        c.cfg.initial_sequence = 64511;
+        c.cfg.max_rounds = (512 / per_round as u32 + 3 + c.cfg.max_rounds).min(140);
+        c
+    })
+    .boxed()
+}
+
+fn wrap_test(c: &SimCase, obs: &mut Obs) -> CheckResult {
+    let log = run_trace(&c.cfg, &c.world);
+    if e2e::prepare(&log, obs)?.is_none() {
+        return Ok(());
+    }
+    e2e::check_schedule(&log, obs)?;
+    obs.class(format!("proto:{:?}", c.cfg.protocol));
+    if log.sends.len() > 512 {
+        obs.class("more-than-512-sequence-numbers-used");
+    }
+    Ok(())
+}
+
 pub fn check() -> PropertyCheck {
     PropertyCheck {
         id: "C06",
@@ -62,7 +99,8 @@ pub fn check() -> PropertyCheck {
         subs: {
             let schedule = Pbt { name: "schedule", quick: 60_000, thorough: 3_000_000, strat, test, max_shrink: 3000 };
             let faults = Pbt { name: "schedule-faults", quick: 40_000, thorough: 1_500_000, strat: super::c10::fault_strat, test: faults_test, max_shrink: 3000 };
-            vec![Box::new(schedule), Box::new(faults)]
+            let wrap = Pbt { name: "schedule-wrap", quick: 12_000, thorough: 400_000, strat: wrap_strat, test: wrap_test, max_shrink: 2000 };
+            vec![Box::new(schedule), Box::new(faults), Box::new(wrap)]
         },
     }
 }
